@@ -421,13 +421,13 @@ def verdict (good bad : String) (xs : List (String × String)) : Option Bool :=
   else if xs.isEmpty || xs.any (fun x => x.2 != good) then none
   else some true
 
-/-- **Table sections are atomic.** No use of `erp.Mutexes` / `erp.MutexeOwners` anywhere in the
-    tree — index, delete, len, range; in a callee the table is passed to; through a struct field
-    it was stored in (alias) — is found outside `MutexesMutex` (or an alias of that lock). Uses
-    the extractor cannot follow (the table or an alias used as a plain value) are `unknown`, not
-    refuted: see the evidence (`facts_unknown`). -/
+/-- **Table sections are atomic.** Every use of `erp.Mutexes` / `erp.MutexeOwners` anywhere in
+    the tree — index, delete, len, range; in a callee the table is passed to; through a struct
+    field it was stored in (alias: the debugger's `mutexeOwners`) — happens with `MutexesMutex`
+    (or the alias of that lock handed over together with the table) held, and neither a table nor
+    an alias is used as a plain value anywhere (that would be `unknown`). -/
 theorem table_uses_under_table_lock :
-    verdict "guarded" "unguarded" Ecal.Gen.C12.tableUses ≠ some false := by decide
+    verdict "guarded" "unguarded" Ecal.Gen.C12.tableUses = some true := by decide
 
 /-- **The release is deferred.** In `mutexRuntime.Eval` every `m.Lock()` on a local mutex is
     followed in the same statement list by an unconditional deferred `m.Unlock()`, with nothing
@@ -467,6 +467,17 @@ theorem owner_before_lock_self_deadlock :
       .setOwner 2, .look 1 0, .decide 1]).map
       (fun s => ((s.thr 1).pc, inBlock (s.thr 1).stack 0, (s.mtx 0).holder, (step s (.lock 1)).isSome))
       = some (.wantLock 0, true, some 1, false) := by decide
+
+/-- Negative witness (`M.Lock` *inside* the table section): thread 2 waits for the named mutex
+    while it holds `MutexesMutex`; thread 1, which has the named mutex, needs `MutexesMutex` for its
+    release — both are stuck, with ONE name and no nesting (impossible in the real protocol:
+    `single_name_no_deadlock`). The same variant makes every name block every name. -/
+theorem lock_in_section_deadlock :
+    (runWith (stepV .lockInSection) init [.look 1 0, .decide 1, .lock 1, .setOwner 1, .look 2 0, .decide 2,
+      .bodyEnd 1 .normal]).map
+      (fun s => ((s.thr 1).pc, (s.thr 2).pc, (stepV .lockInSection s (.lock 2)).isSome,
+        (stepV .lockInSection s (.resetOwner 1)).isSome, (stepV .lockInSection s (.look 3 1)).isSome))
+      = some (.releasing 0, .wantLock 0, false, false, false) := by decide
 
 /-- Negative witness (release *not* deferred): a body that ends by an error leaves the mutex
     locked with nobody holding it; the next entrant waits forever. With the deferred release
